@@ -116,10 +116,10 @@ Print Assumptions C07_delta_read_partition.
 (* Non-vacuity: a history with an empty write, a flush and a rejected write; the replayed parser
    decisions are those of a real run. *)
 Example C07_lzma1_example :
-  l1_replay false false 4096 32 None (Some 5) [OpWrite 0; OpWrite 3; OpFlush; OpWrite 4; OpWrite 2; OpFinish]
+  l1_replay false false 4096 32 None (Some 5) [WoWrite 0; WoWrite 3; WoFlush; WoWrite 4; WoWrite 2; WoFinish]
             [DSym 1 1 false; DSym 1 1 false; DSym 1 1 false; DSym 1 1 false]
   = Ok ([EvFill 3 3; EvFill 2 2; EvPos 0 5; EvSym 1 0;
          EvConsult 0 5 (-1); EvPos 1 4; EvSym 1 0; EvConsult 1 4 (-1); EvPos 2 0; EvSym 1 0;
          EvConsult 2 3 (-1); EvPos 3 0; EvSym 1 0; EvConsult 3 2 (-1); EvPos 4 0; EvSym 1 0; EvEnd],
-        [RWrote 0; RWrote 3; RDone; RErr 2; RWrote 2; RDone], []).
+        [RWrote 0; RWrote 3; RDone; RRej 2; RWrote 2; RDone], []).
 Proof. vm_compute. reflexivity. Qed.
